@@ -885,6 +885,10 @@ func c131split(c *an.Ctx, p *an.Prog) {
 	if !need(c, "C13.1", fn, "sasl.scanLengthEncodedString") {
 		return
 	}
+	if fn.Signature.Results().Len() != 3 || len(fn.Params) != 2 {
+		c.Undecided("C13.1", fnKey(fn)+"|split", p.Pos(fn.Pos()), "UNRESOLVED: the function standing for scanLengthEncodedString is not a bufio.SplitFunc (data, atEOF) (advance, token, err): the decoder no longer cuts the stream with the checked split function")
+		return
+	}
 	var bad []string
 	nTok, nMore, nErr := 0, 0, 0
 	data := "p:data"
